@@ -223,6 +223,7 @@ Json generate(const std::string& tier, uint64_t seed, uint64_t index) {
   }
   sc.set("simfile", plan);
   sc.set("faults", faults);
+  sc.set("std_string", rng.chance(0.3));     // the in-memory path is given a std::string (bytes may contain NULs: every binary file does)
   return sc;
 }
 
@@ -301,7 +302,7 @@ sim::RunResult run(const Json& sc) {
   // this toolchain) and the supervisor builds the crash signature from the worker's stderr.
   for (auto& hj : sc["handlers"].arr()) {
     const std::string hname = hj.as_str();
-    ReadOpts ro; ro.flags = flags; ro.handler = handler_id(hname);
+    ReadOpts ro; ro.flags = flags; ro.handler = handler_id(hname); ro.std_string = sc["std_string"].as_bool();
     // every notification consumes input, and the input is passed over at most twice (bounds first): a generous linear bound
     ro.max_notifications = 16 * (long)bytes.size() + 4096;
     bump(st, "handler." + hname);
